@@ -383,4 +383,34 @@ def loadOps (c : ClassInfo) (viaOuter : Bool) (self proxy : Lid) (pfx : Pfx) : L
   [.add viaOuter self, .remove viaOuter self, .addPrefix viaOuter self pfx] ++
   (if c.installsProxy then [.remove viaOuter self, .remove viaOuter proxy, .addPrefix viaOuter proxy pfx, .setFwd proxy self] else [])
 
+/-! ## 4. The service: overlays and the discovery strategies the ticker drives (`ipv8_service.IPv8`) -/
+
+structure Svc where
+  overlays : List Nat := []
+  strategies : List (Nat × Nat) := []      -- (strategy id, id of the overlay it drives), in registration order
+deriving Repr
+
+/-- `IPv8.add_strategy` -/
+def Svc.addStrategy (s : Svc) (o sid : Nat) : Svc :=
+  { overlays := if s.overlays.contains o then s.overlays else s.overlays ++ [o],
+    strategies := s.strategies ++ [(sid, o)] }
+
+/-- `IPv8.unload_overlay` up to the call of `instance.unload`: both lists are rebuilt without the instance -/
+def Svc.unloadOverlay (s : Svc) (o : Nat) : Svc :=
+  { overlays := s.overlays.filter (fun x => x != o), strategies := s.strategies.filter (fun e => e.2 != o) }
+
+/-- the strategies whose `take_step` a tick (`IPv8.on_tick`) may call -/
+def Svc.stepped (s : Svc) : List (Nat × Nat) := s.strategies
+
+inductive SOp
+  | add (o sid : Nat)
+  | unload (o : Nat)
+deriving Repr, DecidableEq
+
+def Svc.step (s : Svc) : SOp → Svc
+  | .add o sid => s.addStrategy o sid
+  | .unload o => s.unloadOverlay o
+
+def Svc.run (s : Svc) (ops : List SOp) : Svc := ops.foldl Svc.step s
+
 end Ipv8.C11
